@@ -25,7 +25,7 @@
  * specification has no action for either, so TLC rejects the trace there.
  *
  * DUMP = {"P":present,"c":[NODE..]};  NODE = {"n":[bytes],"k":"s|p|l|o","P":0|1,"S":0|1, ..}
- *   s: "v":OPT "d":OPT "st":subtype "pv":parsed value (int; float in 1/1000; plain 0)
+ *   s: "v":OPT "d":OPT "st":subtype "pv":parsed value (int; float in 1/1000; plain 0) "pvd":its decimal digits
  *   p: "h":OPT "s":OPT "dh":OPT "ds":OPT        OPT = [] for NULL, [[bytes]] for a string
  *   l: "v":[[bytes]..] "d":[[bytes]..]
  *   o: "c":[NODE..]   (below 100 nested objects: "c":[],"T":1)
@@ -149,6 +149,16 @@ static void p_node(struct conf_node_base *base, int depth)
         default: pv = 0; break;
         }
         fprintf(out, ",\"st\":%d,\"pv\":%ld", (int)n->subtype, pv);
+        {
+            /* the same value as decimal digit codes (TLC integers are 32 bits wide; intervals and
+             * volumes are unsigned int) */
+            char dig[32];
+            int k, nd = snprintf(dig, sizeof(dig), "%lu", (unsigned long)(pv < 0 ? 0 : pv));
+            fputs(",\"pvd\":[", out);
+            for (k = 0; k < nd; ++k)
+                fprintf(out, "%s%d", k ? "," : "", (int)dig[k]);
+            fputs("]", out);
+        }
         break;
     }
     case CONF_INADDR: {
